@@ -97,22 +97,24 @@ pub fn parse_static_ratio(embedded: bool, input: TokenStream) -> TokenStream {
 fn parse_ratio_with_error(input: TokenStream) -> Result<(IBig, UBig, bool), ParseError> {
     let mut num_val: Option<_> = None;
     let mut num_neg = false;
+    let mut num_signed = false;
     let mut den_val: Option<_> = None;
     let mut den_neg = false;
+    let mut den_signed = false;
     let mut den_marked = false;
     let mut relaxed = false;
     let mut base_marked = false;
     let mut base: Option<_> = None;
 
-    // parse tokens
+    // parse tokens: [~] [+|-] [~] numerator [ / [+|-] denominator [base N] ]
     for token in input {
         match token {
             TokenTree::Literal(lit) => {
                 if num_val.is_none() {
                     num_val = Some(lit.to_string());
-                } else if den_val.is_none() {
+                } else if den_val.is_none() && den_marked {
                     den_val = Some(lit.to_string());
-                } else if base.is_none() && base_marked {
+                } else if den_val.is_some() && base.is_none() && base_marked {
                     base = Some(lit.to_string());
                 } else {
                     return Err(ParseError::InvalidDigit);
@@ -121,9 +123,9 @@ fn parse_ratio_with_error(input: TokenStream) -> Result<(IBig, UBig, bool), Pars
             TokenTree::Ident(ident) => {
                 if num_val.is_none() {
                     num_val = Some(ident.to_string())
-                } else if den_val.is_none() {
+                } else if den_val.is_none() && den_marked {
                     den_val = Some(ident.to_string());
-                } else if base.is_none() && ident == "base" {
+                } else if den_val.is_some() && base.is_none() && !base_marked && ident == "base" {
                     base_marked = true
                 } else {
                     return Err(ParseError::InvalidDigit);
@@ -131,24 +133,35 @@ fn parse_ratio_with_error(input: TokenStream) -> Result<(IBig, UBig, bool), Pars
             }
             TokenTree::Punct(punct) => {
                 if punct.as_char() == '/' {
-                    if !den_marked && !base_marked {
+                    // exactly one slash, after the numerator
+                    if num_val.is_some() && !den_marked && !base_marked {
                         den_marked = true;
                     } else {
                         return Err(ParseError::InvalidDigit);
                     }
                 } else if punct.as_char() == '~' {
-                    if num_val.is_none() && den_val.is_none() {
+                    if num_val.is_none() && !relaxed {
                         relaxed = true;
                     } else {
                         return Err(ParseError::InvalidDigit);
                     }
                 } else if num_val.is_none() {
+                    // at most one sign in front of the numerator
+                    if num_signed {
+                        return Err(ParseError::InvalidDigit);
+                    }
+                    num_signed = true;
                     if punct.as_char() == '-' {
                         num_neg = true;
                     } else if punct.as_char() != '+' {
                         return Err(ParseError::InvalidDigit);
                     }
-                } else if den_val.is_none() {
+                } else if den_val.is_none() && den_marked {
+                    // at most one sign between the slash and the denominator
+                    if den_signed {
+                        return Err(ParseError::InvalidDigit);
+                    }
+                    den_signed = true;
                     if punct.as_char() == '-' {
                         den_neg = true;
                     } else if punct.as_char() != '+' {
@@ -160,6 +173,10 @@ fn parse_ratio_with_error(input: TokenStream) -> Result<(IBig, UBig, bool), Pars
             }
             _ => return Err(ParseError::InvalidDigit),
         }
+    }
+    if den_marked && den_val.is_none() {
+        // a slash without a denominator
+        return Err(ParseError::NoDigits);
     }
 
     // generate expressions
